@@ -54,6 +54,9 @@ func declare(d M, declared string, contentLen int, variant int) {
 	}
 }
 
+// the request method is a dimension of every case: the answer of HasBody and the body it leaves must not depend on it
+var methods = []string{"POST", "GET", "HEAD", "get", "DELETE", "OPTIONS", "head", "PUT"}
+
 var drainSizes = []int{1, 2, 3, 4096, 5000, 7}
 
 func generate(c *drv.Ctx) {
@@ -104,7 +107,7 @@ func generate(c *drv.Ctx) {
 			}
 			s := streamkit.ScriptFromJSON(m["sc"])
 			d := M{"kind": "tg", "sc": s.JSON(), "bodyNil": drv.Bool(m["bodyNil"]), "hist": m["hist"],
-				"drainK": drainSizes[nTG%len(drainSizes)]}
+				"drainK": drainSizes[nTG%len(drainSizes)], "method": methods[(nTG/3)%len(methods)]}
 			declare(d, drv.Str(m["declared"]), len(s.Content), nTG)
 			c.Case(d)
 			nTG++
@@ -187,7 +190,7 @@ func randomCase(rng *rand.Rand) M {
 	}
 	_ = probed
 	d := M{"kind": "rand", "sc": s.JSON(), "bodyNil": bodyNil, "hist": hist,
-		"drainK": readSizes[1+rng.Intn(len(readSizes)-1)]}
+		"drainK": readSizes[1+rng.Intn(len(readSizes)-1)], "method": methods[rng.Intn(len(methods))]}
 	declare(d, declared, len(s.Content), rng.Intn(6))
 	return d
 }
@@ -206,7 +209,11 @@ type obs struct {
 func execute(c *drv.Ctx, d M) bool {
 	s := streamkit.ScriptFromJSON(d["sc"])
 	bodyNil := drv.Bool(d["bodyNil"])
-	req, err := http.NewRequest(http.MethodPost, "http://verif.invalid/c17", nil)
+	method := drv.Str(d["method"])
+	if method == "" {
+		method = http.MethodPost
+	}
+	req, err := http.NewRequest(method, "http://verif.invalid/c17", nil)
 	if err != nil {
 		panic(err)
 	}
